@@ -205,11 +205,12 @@ theorem dequeue_abs [StrictWeak lt] {s : HH} (h : WF lt s) (hpos : 0 < s.count) 
 theorem remove_abs [StrictWeak lt] {s : HH} (h : WF lt s) (k : Nat) (hk0 : k ≠ 0) :
     ∃ s', remove lt s k = .ok (s', decide (k ∈ keys (abs s))) ∧ WF lt s' ∧
       (abs s').Perm (KPQ.remove (abs s) k) ∧
-      s'.exp = s.exp ∧ s'.expInit = s.expInit ∧ s'.counter = s.counter := by
+      s'.exp = s.exp ∧ s'.expInit = s.expInit ∧ s'.counter = s.counter ∧
+      s'.count = s.count - (if k ∈ keys (abs s) then 1 else 0) := by
   by_cases hk : k ∈ keys (abs s)
   · obtain ⟨i, hi, rfl⟩ := (mem_keys_abs s k).1 hk
     obtain ⟨s', hrun, hwf', hc, he, hei, hct, hl⟩ := remove_present h hi
-    refine ⟨s', by rw [hrun]; simp [hk], hwf', ?_, he, hei, hct⟩
+    refine ⟨s', by rw [hrun]; simp [hk], hwf', ?_, he, hei, hct, by rw [hc, if_pos hk]⟩
     unfold KPQ.remove
     rw [List.perm_ext_iff_of_nodup hwf'.abs_nodup (nodup_filter _ h.abs_nodup)]
     intro x
@@ -225,7 +226,7 @@ theorem remove_abs [StrictWeak lt] {s : HH} (h : WF lt s) (k : Nat) (hk0 : k ≠
       have : j ≠ i := fun he => hne' (by rw [he])
       exact ⟨s.tag j, (hl _).2 ⟨j, hj.1, hj.2, this, rfl⟩, rfl⟩
   · have hrun := remove_absent h hk0 (fun i hi he => hk ((mem_keys_abs s k).2 ⟨i, hi, he⟩))
-    refine ⟨s, by rw [hrun]; simp [hk], h, ?_, rfl, rfl, rfl⟩
+    refine ⟨s, by rw [hrun]; simp [hk], h, ?_, rfl, rfl, rfl, by rw [if_neg hk]; rfl⟩
     unfold KPQ.remove
     rw [List.filter_eq_self.2]
     intro x hx
